@@ -64,9 +64,11 @@ def make_specs(ctx: Ctx, n):
             kind = "solve_and_simulate"
         else:              # arbitrary arrays of the right shape
             arb = _arbitrary(rng, m)
-            plan = [{"op": "simulate", "target": "simulate", "init": init, "seed": rng.randrange(10**6), "vsrc": "given",
+            # ... handed to the simulate target or (every third such case) to the combined target, which accepts them too
+            tgt = "solve_and_simulate" if i % 9 == 8 else "simulate"
+            plan = [{"op": "simulate", "target": tgt, "init": init, "seed": rng.randrange(10**6), "vsrc": "given",
                      "arbitrary": arb, "int_init": int_init}]
-            kind = "arbitrary arrays"
+            kind = "arbitrary arrays" + (" passed to the combined target" if tgt != "simulate" else "")
         specs.append(mk_spec(i, m, ["c02"], plan, label=f"{label}; {kind}" + ("; float64" if i % 5 == 4 else ""), x64=i % 5 == 4))
     return specs
 
